@@ -436,14 +436,27 @@ def run(repo, chk):
     chk.fn(rs)
     reset = {}     # class -> {field: value text}
     for n in rs.body:
-        if isinstance(n, ast.For) and isinstance(n.iter, ast.Call) and n.iter.args and isinstance(n.iter.args[0], ast.Name):
-            kind = n.iter.args[0].id
+        if isinstance(n, ast.For) and isinstance(n.iter, ast.Call) and isinstance(n.iter.func, ast.Attribute) and n.iter.func.attr in KIND_OF_ITER:
+            if n.iter.args and isinstance(n.iter.args[0], ast.Name):
+                classes_ = RESET_KIND.get(n.iter.args[0].id, [n.iter.args[0].id])
+            else:
+                classes_ = KIND_OF_ITER[n.iter.func.attr]
             tg = n.target.elts[-1].id if isinstance(n.target, ast.Tuple) else n.target.id
             for s in walk(n):
                 if isinstance(s, ast.Assign):
                     for t in s.targets:
                         if isinstance(t, ast.Attribute) and isinstance(t.value, ast.Name) and t.value.id == tg:
-                            for c in RESET_KIND.get(kind, [kind]):
+                            # an isinstance guard narrows the classes the assignment applies to
+                            cl = list(classes_)
+                            q = s
+                            while q is not None and q is not n:
+                                pq = parent(q)
+                                if isinstance(pq, ast.If) and q in pq.body and isinstance(pq.test, ast.Call) and unparse(pq.test.func) == "isinstance" \
+                                        and isinstance(pq.test.args[1], ast.Name) and unparse(pq.test.args[0]) == tg:
+                                    nm = pq.test.args[1].id
+                                    cl = [c for c in cl if c in RESET_KIND.get(nm, [nm])]
+                                q = pq
+                            for c in cl:
                                 reset.setdefault(c, {})[t.attr] = unparse(s.value)
         elif isinstance(n, ast.Assign):
             for t in n.targets:
